@@ -773,10 +773,20 @@ def sec_msm(ctx):
         changed.append("Msm")
 
 
+@section("Rest")
+def sec_rest(ctx):
+    changed = ctx["changed"]
+    sys.path.insert(0, os.path.dirname(os.path.abspath(__file__)))
+    import extract_rest
+    manifest.extend(extract_rest.emit(REPO, GEN, ExtractError))
+    if getattr(extract_rest, "CHANGED", False):
+        changed.append("Rest")
+
+
 def main():
     os.makedirs(GEN, exist_ok=True)
     ctx = {"changed": []}
-    for sec in (sec_fields, sec_montprog, sec_derive, sec_fqconsts, sec_curve, sec_maps, sec_chains, sec_arith, sec_enc, sec_pair, sec_iso, sec_hash, sec_msm):
+    for sec in (sec_fields, sec_montprog, sec_derive, sec_fqconsts, sec_curve, sec_maps, sec_chains, sec_arith, sec_enc, sec_pair, sec_iso, sec_hash, sec_msm, sec_rest):
         sec(ctx)
     changed = ctx["changed"]
     with open(os.path.join(VERIF, "gen_manifest.json"), "w") as f:
